@@ -1,7 +1,7 @@
 #!/bin/bash
 # usage: collect_harmless.sh <ID> : checks /tmp/h1/<ID>/out/k (evidence.py exits 0 clean and patched, patch applies) and copies to /verif/harmless/<ID>-k
 id=$1; base=${H_BASE:-/tmp/h1}; commit=${H_COMMIT:-HEAD}
-export JAX_PLATFORMS=cpu XLA_FLAGS=--xla_force_host_platform_device_count=8 TF_CPP_MIN_LOG_LEVEL=3
+export JAX_PLATFORMS=cpu TF_CPP_MIN_LOG_LEVEL=3; [ -n "$H_NODEV" ] || export XLA_FLAGS=--xla_force_host_platform_device_count=8
 for k in 1 2 3; do
   src=$base/$id/out/$k; [ -f $src/patch.diff ] || continue
   wt=/tmp/ch_${id}_${k}_$$
